@@ -736,13 +736,13 @@ class ItemGrader(AbstractGrader):
             output = json.dumps(inferred)  # How to avoid unicode 'u' showing up!
             self.log("Expect value inferred to be {}".format(output))
 
-            # Validate the answers
-            self.config['answers'] = self.schema_answers(inferred)
+            # Validate the answers (schema, then post-schema validation) before storing
+            # anything, so that a bad expect value leaves the grader as it was
+            answers = self.schema_answers(inferred)
+            answers = self.post_schema_ans_val(answers)
+            self.config['answers'] = answers
             # Note that this answer is now stored for future calls, but
             # will be overridden if a new expect value is provided.
-
-            # Perform post-schema answer validation
-            self.config['answers'] = self.post_schema_ans_val(self.config['answers'])
 
             # Mark that we are using inferred answers
             self.inferring_answers = True
